@@ -685,3 +685,62 @@ mod tests {
         assert!(result.is_err())
     }
 }
+
+/// Verification hooks (feature `strand_verif` only): safe-prime parameter sets
+/// chosen by a const generic (`p = 2q + 1`, generator 4, cofactor 2) that
+/// instantiate the same generic code as `P2048`, and raw constructors /
+/// accessors for the wrapper types.
+#[cfg(feature = "strand_verif")]
+pub mod verif {
+    use super::*;
+
+    #[derive(Eq, PartialEq, Clone, Debug)]
+    pub struct VP<const MODULUS: u64> {
+        generator: NaturalE<Self>,
+        modulus: NaturalE<Self>,
+        exp_modulus: NaturalX<Self>,
+        co_factor: Natural,
+    }
+
+    impl<const MODULUS: u64> MalachiteCtxParams for VP<MODULUS> {
+        fn generator(&self) -> &NaturalE<Self> {
+            &self.generator
+        }
+        fn modulus(&self) -> &NaturalE<Self> {
+            &self.modulus
+        }
+        fn exp_modulus(&self) -> &NaturalX<Self> {
+            &self.exp_modulus
+        }
+        fn co_factor(&self) -> &Natural {
+            &self.co_factor
+        }
+        fn new() -> Self {
+            VP {
+                generator: NaturalE::new(Natural::from(4u32)),
+                modulus: NaturalE::new(Natural::from(MODULUS)),
+                exp_modulus: NaturalX::new(Natural::from((MODULUS - 1) / 2)),
+                co_factor: Natural::from(2u32),
+            }
+        }
+    }
+
+    pub fn e_raw<P: MalachiteCtxParams>(v: Natural) -> NaturalE<P> {
+        NaturalE::new(v)
+    }
+    pub fn x_raw<P: MalachiteCtxParams>(v: Natural) -> NaturalX<P> {
+        NaturalX::new(v)
+    }
+    pub fn p_raw(v: Natural) -> NaturalP {
+        NaturalP(v)
+    }
+    pub fn e_val<P: MalachiteCtxParams>(e: &NaturalE<P>) -> &Natural {
+        &e.0
+    }
+    pub fn x_val<P: MalachiteCtxParams>(x: &NaturalX<P>) -> &Natural {
+        &x.0
+    }
+    pub fn p_val(p: &NaturalP) -> &Natural {
+        &p.0
+    }
+}
